@@ -312,8 +312,66 @@ func ruleNoInPlaceValueMutation(r *Run, rels []string, floor int) {
 		seen[v] = true
 		v = stripTypeOnly(v)
 		switch x := v.(type) {
+		case *ssa.FreeVar:
+			// a captured value (bound method receiver, by-value capture)
+			if b := freeVarBinding(x); b != nil {
+				return fresh(b, depth+1, seen)
+			}
+			return false
 		case *ssa.Call:
 			callee := staticCallee(x)
+			if callee == nil && !x.Call.IsInvoke() {
+				// a call of a function-typed parameter: fresh when every function passed for it
+				// returns fresh values
+				if prm, ok := originValue(x.Call.Value).(*ssa.Parameter); ok && prm.Parent() != nil {
+					host := prm.Parent()
+					idx := -1
+					for i, q := range host.Params {
+						if q == prm {
+							idx = i
+						}
+					}
+					nSites := 0
+					for _, caller := range p.SrcFuncs() {
+						for _, c := range callsIn(caller) {
+							if staticCallee(c) != host || idx < 0 || idx >= len(c.Common().Args) {
+								continue
+							}
+							nSites++
+							var f *ssa.Function
+							switch a := stripTypeOnly(c.Common().Args[idx]).(type) {
+							case *ssa.MakeClosure:
+								f, _ = a.Fn.(*ssa.Function)
+							case *ssa.Function:
+								f = a
+							}
+							if f == nil || f.Blocks == nil {
+								return false
+							}
+							if mc, isMC := stripTypeOnly(c.Common().Args[idx]).(*ssa.MakeClosure); isMC && f.Parent() == nil && len(f.FreeVars) == 1 && len(mc.Bindings) == 1 {
+								// a bound method value (slice.AppendEmpty): as fresh as its receiver
+								okBound := false
+								for _, bc := range callsIn(f) {
+									if m := staticCallee(bc); isPcommon(m) && (strings.HasPrefix(m.Name(), "AppendEmpty") || strings.HasPrefix(m.Name(), "PutEmpty")) {
+										okBound = fresh(mc.Bindings[0], depth+1, seen)
+									}
+								}
+								if !okBound {
+									return false
+								}
+								continue
+							}
+							for _, ret := range returnsOf(f) {
+								if len(ret.Results) != 1 || !fresh(ret.Results[0], depth+1, seen) {
+									return false
+								}
+							}
+						}
+					}
+					return nSites > 0
+				}
+				return false
+			}
 			if !isPcommon(callee) {
 				return false
 			}
@@ -346,7 +404,16 @@ func ruleNoInPlaceValueMutation(r *Run, rels []string, floor int) {
 				}
 				return true
 			case *ssa.FreeVar:
-				if b := freeVarBinding(c); b != nil {
+				b := freeVarBinding(c)
+				// captured through several closure levels
+				for d := 0; d < 4 && b != nil; d++ {
+					fv2, ok := b.(*ssa.FreeVar)
+					if !ok {
+						break
+					}
+					b = freeVarBinding(fv2)
+				}
+				if b != nil {
 					if al, ok := b.(*ssa.Alloc); ok {
 						sts := storesTo(al)
 						if len(sts) == 0 {
